@@ -426,7 +426,8 @@ func ruleR14_3(r *Run) {
 	}
 	okStart := false
 	if start != nil {
-		if phi, ok := start.Common().Args[0].(*ssa.Phi); ok {
+		// the counter may be kept in int and converted at the call (a uint8 counter cannot pass 255)
+		if phi, ok := stripConv(start.Common().Args[0]).(*ssa.Phi); ok {
 			first := int64(-1)
 			for _, e := range phi.Edges {
 				if k, ok := constInt(e); ok {
@@ -437,7 +438,7 @@ func ruleR14_3(r *Run) {
 			for _, b := range nm.Blocks {
 				if ifi, ok := b.Instrs[len(b.Instrs)-1].(*ssa.If); ok {
 					if bo, ok := ifi.Cond.(*ssa.BinOp); ok && bo.Op == token.LEQ && bo.X == ssa.Value(phi) {
-						if c, ok := bo.Y.(*ssa.Call); ok && c.Call.IsInvoke() && c.Call.Method.Name() == "GetMaxDownresLevel" {
+						if c, ok := stripConv(bo.Y).(*ssa.Call); ok && c.Call.IsInvoke() && c.Call.Method.Name() == "GetMaxDownresLevel" {
 							leq = true
 						}
 					}
